@@ -27,6 +27,7 @@ def main():
                                "--exclude", "tests-output", REPO + "/", scratch + "/"])
         missed = 0
         ran = 0
+        skipped = 0
         for m in muts:
             if filt and filt not in m["name"]:
                 continue
@@ -44,9 +45,11 @@ def main():
                     break
                 open(p, "w").write(cur.replace(ed["old"], ed["new"]))
             if stale:
+                # the corpus is pinned to the tree it was written against: an entry whose pattern is gone says
+                # nothing about the checker, so it is skipped (and counted), not reported as missed
                 for p, cur in saved.items():
                     open(p, "w").write(cur)
-                missed += 1
+                skipped += 1
                 continue
             env = dict(os.environ, VERIF_EVIDENCE_DIR=os.path.join(scratch, "_evidence"))
             r = subprocess.run([sys.executable, os.path.join(VERIF, "sa", "check.py"), pid, "--tier", "quick", "--repo", scratch],
@@ -66,7 +69,7 @@ def main():
                                              "" if hit else out.strip().splitlines()[-3:]))
             if not hit:
                 missed += 1
-        print("%d mutants run, %d missed" % (ran, missed))
+        print("%d mutants run, %d missed, %d skipped" % (ran, missed, skipped))
         return 2 if missed else 0
     finally:
         shutil.rmtree(scratch, ignore_errors=True)
